@@ -8,7 +8,7 @@ open Proto Params
       pmm <name:0|1,...>                   reset: mapper over the given models (1 = source model)
       push / pop                           duplicate / drop the top state
       add <name> <ini> <lo|N> <hi|N> <fx 1|0|N> <front 0|1>
-      fix <name=bits|N,...|->
+      fix <name=bits|N|U,...|->            (N = None, U = not castable to float)
       float <name=ini/lo/hi,...|->         each of ini, lo, hi is bits or N
       setv <name> <bits>
       union <left 0|1> <name/ini/lo/hi/fx;...|->
@@ -82,8 +82,8 @@ def pKV (s : String) : String × String :=
   | [k, v] => (k, v)
   | _ => (s, "N")
 
-def pFixReq (s : String) : List (String × Option Float) :=
-  (pList pKV s).map (fun kv => (kv.1, pO kv.2))
+def pFixReq (s : String) : List (String × FixVal Float) :=
+  (pList pKV s).map (fun kv => (kv.1, if kv.2 == "U" then .bad else if kv.2 == "N" then .cur else .val (pF kv.2)))
 
 def pFloatReq (s : String) : List (String × PSet.FloatEntry Float) :=
   (pList pKV s).map (fun kv => match kv.2.splitOn "/" with
